@@ -639,6 +639,16 @@ def gen_grow_session(rng, kind, conf_clusters, cluster_size):
                 brackets.append([("create", rng.choice(live).upper())])          # exists: Ok, nothing written
             else:
                 brackets.append([create(rng.choice(GROW_LENS))])
+    elif kind == "partial":
+        # deterministic family: ONE cluster left, the directory filled to 14 of its 16 slots (512-byte clusters), then a 21-slot run:
+        # the first allocation succeeds, the second fails - NotEnoughSpace after the directory has grown by a cluster
+        prelude = ["create_file 0 %s 5" % hexs("filler.bin"), "write_pat 5 %d 3" % ((conf_clusters - 2) * cluster_size), "drop_file 5"]
+        per = cluster_size // 32
+        for _ in range((per - 2) // 3):
+            brackets.append([create(14)])
+        brackets.append([create(255)])
+        brackets.append([create(255)])
+        brackets.append([create(1)])
     elif kind == "multi":
         for _ in range(5 + rng.below(4)):
             brackets.append([create(rng.choice([13, 26, 40, 66, 130, 255])) for _ in range(2 + rng.below(3))])
@@ -691,8 +701,8 @@ def build_grow_script(conf, prelude, brackets):
 
 def run_grow_stream(rep, tier, seed):
     rng = vlib.Rng(seed * 32452843 + 17)
-    plan_kinds = (["grow", "full", "multi", "full", "grow", "full"] if tier == "quick" else
-                  ["grow", "full", "multi", "full"] * 15)
+    plan_kinds = (["partial", "grow", "full", "multi", "full", "grow", "full"] if tier == "quick" else
+                  ["partial", "partial"] + ["grow", "full", "multi", "full"] * 15)
     confs = [c for c in (grow_conf(512, 512, 9, 0xD1), grow_conf(512, 512, 14, 0), grow_conf(512, 1024, 7, 0xFF),
                          grow_conf(1024, 1024, 11, 0), grow_conf(512, 512, 23, 0xE5)) if c is not None]
     big = grow_conf(512, 512, 4200, 0)          # FAT16: growth only
@@ -745,7 +755,7 @@ def run_grow_stream(rep, tier, seed):
             prev = pi
     out = vlib.model_run("cvol", "\n".join(mlines) + "\n")[1:]
     assert len(out) == len(plan), (len(out), len(plan))
-    ncmp = nviol = nops = ngrow = ngrow2 = nnospace = nresidue = nframe = nna = nwf = 0
+    ncmp = nviol = nops = ngrow = ngrow2 = nnospace = nresidue = nframe = nna = nwf = npartial = 0
     kinds = {}
     chains = {}
     grown_per_session = {}
@@ -800,6 +810,8 @@ def run_grow_stream(rep, tier, seed):
                 st["chain1"] = newchain; sess["chain"] = newchain
             if mtag == "err NotEnoughSpace":
                 st["nospace"] = True; nnospace += 1
+                if ch and d >= 1:
+                    npartial += 1
             if mtag != itag:
                 sess["bad"] = True; nviol += 1
                 if nviol <= 3:
@@ -875,6 +887,7 @@ def run_grow_stream(rep, tier, seed):
         "calls_compared": nops, "brackets_compared_whole_device": ncmp, "disagreements": nviol, "frame_failures_on_device": nframe,
         "creates_that_grew_the_directory": ngrow, "creates_that_grew_by_two_clusters": ngrow2,
         "clusters_grown_per_session": [grown_per_session.get(j, 0) for j in range(len(jobs))],
-        "not_enough_space_outcomes": nnospace, "brackets_leaving_a_new_orphan_run": nresidue, "wf_evaluations_on_device": nwf,
+        "not_enough_space_outcomes": nnospace, "not_enough_space_after_the_directory_grew_by_a_cluster": npartial,
+        "brackets_leaving_a_new_orphan_run": nresidue, "wf_evaluations_on_device": nwf,
         "declined_by_model_na": nna, "model_outcomes": kinds}
     return nviol
